@@ -248,3 +248,86 @@ Proof.
       * eapply cong_chg; eassumption.
       * exists k; split; [left; reflexivity|exact A].
 Qed.
+
+(* ---------------------------------------------------------------- callers without a success report
+   Rational(f,m,k,recurs) and QField<Rational>::ratrecon keep whatever pair the last call of ratrecon left:
+   whether or not ratrecon succeeded, that pair satisfies the congruence and has a positive denominator. *)
+Definition always (f m : Z) (r : res) : Prop :=
+  let '(_, n, d) := r in cong m n (d * f) /\ 0 < d.
+
+Lemma finish_always F f m k fr r0 t0 r1 t1 :
+  0 < m -> 1 <= k <= m -> cong m F f ->
+  Inv F m k r0 t0 r1 t1 -> r1 < k ->
+  always f m (finish f m k fr (r0, t0, r1, t1)).
+Proof.
+  intros Hm Hk HF HI Hlt.
+  pose proof HI as [c0 c1 det sgn hr1 hr0 ht0 ht1].
+  assert (Ht1 : t1 <> 0) by (intros E; destruct (ht1 E); lia).
+  assert (C1 : cong m (norm_num r1 t1) (norm_den t1 * f)) by (apply norm_cong; eapply cong_chg; eassumption).
+  assert (D1 : 0 < norm_den t1) by (rewrite norm_den_abs; lia).
+  unfold finish.
+  destruct fr; [|cbn; split; assumption].
+  destruct (negb (Z.gcd (norm_num r1 t1) (norm_den t1) =? 1)); [|cbn; split; assumption].
+  destruct (Z.eqb_spec (norm_num r1 t1) 0) as [Z0|Z0].
+  { destruct (Z.rem f m =? 0); cbn; split; assumption. }
+  assert (Hr1 : 0 < r1) by (unfold norm_num in Z0; destruct (t1 <? 0); lia).
+  assert (Hq : Z.quot (r0 + r1 - k) r1 = (r0 + r1 - k) / r1) by (apply Z.quot_div_nonneg; lia).
+  rewrite Hq. set (q := (r0 + r1 - k) / r1).
+  assert (Hq1 : 1 <= q) by (apply Z.div_le_lower_bound; lia).
+  assert (Ht0' : Z.abs (t0 - q * t1) = Z.abs t0 + q * Z.abs t1).
+  { replace (q * t1) with (t1 * q) by lia. apply abs_sub_opp; lia. }
+  assert (CC : cong m (norm_num (r0 - q * r1) (t0 - q * t1)) (norm_den (t0 - q * t1) * f)).
+  { apply norm_cong. eapply cong_chg; [|exact HF].
+    replace (q * r1) with (r1 * q) by lia. replace (q * t1) with (t1 * q) by lia.
+    eapply cong_trans; [apply cong_sub_mul; [exact c0|exact c1]|]. exists 0; lia. }
+  assert (DD : 0 < norm_den (t0 - q * t1)) by (rewrite norm_den_abs, Ht0'; nia).
+  destruct (negb (Z.gcd (norm_num (r0 - q * r1) (t0 - q * t1)) (norm_den (t0 - q * t1)) =? 1)); cbn; split; assumption.
+Qed.
+
+Definition Ratrecon_always := forall f m k fr r, 1 <= m -> 1 <= k -> (k <= m \/ 0 <= f < k \/ f < 0) ->
+  ratrecon f m k fr = Some r -> always f m r.
+Lemma ratrecon_always : Ratrecon_always.
+Proof.
+  intros f m k fr r Hm Hk Hdom. unfold ratrecon, ratrecon_fuel.
+  destruct (init_r1_spec f m ltac:(lia)) as [H0 HF].
+  destruct (Z.le_gt_cases k m) as [Le|Gt].
+  - destruct (loop (fuel_of m) k m 0 (init_r1 f m) 1) as [s|] eqn:E; [|discriminate].
+    intros R; inversion R; subst r; clear R.
+    pose proof (loop_inv (init_r1 f m) m k Hk _ _ _ _ _ _ (Inv_init _ m k H0 ltac:(lia)) E) as HI.
+    destruct s as [[[r0 t0] r1] t1]. destruct HI as [HI Hlt].
+    eapply finish_always; eauto; lia.
+  - assert (Hs : init_r1 f m < k).
+    { destruct Hdom as [?|[?|N]]; [lia| |pose proof (init_r1_lt f m ltac:(lia) N); lia].
+      unfold init_r1. destruct (Z.ltb_spec f 0); lia. }
+    rewrite loop_stop by exact Hs. rewrite finish_trivial.
+    intros R; inversion R; subst r; clear R. unfold always.
+    split; [rewrite Z.mul_1_l; exact HF|lia].
+Qed.
+
+(* the Rational constructor / QField::ratrecon for any residue f <= m (negative ones included), any flags / recurs *)
+Lemma widen_always f m fr : 1 <= m -> f <= m ->
+  forall fuel newk cur r, 1 <= newk -> always f m cur ->
+  widen fuel f m f newk fr cur = Some r -> always f m r.
+Proof.
+  intros Hm Hf fuel; induction fuel as [|n IH]; intros newk cur r Hn Hc; cbn [widen];
+    destruct cur as [[ok a] b].
+  - destruct (negb ok && (newk <? f)); [discriminate|]. intros R; inversion R; subst; exact Hc.
+  - destruct (negb ok && (newk <? f)) eqn:Cnd; [|intros R; inversion R; subst; exact Hc].
+    apply andb_true_iff in Cnd. destruct Cnd as [_ Hlt]. apply Z.ltb_lt in Hlt.
+    destruct (ratrecon f m newk fr) as [r'|] eqn:E; [|discriminate].
+    apply IH; [lia|].
+    assert (Hd : newk <= m \/ 0 <= f < newk \/ f < 0) by lia.
+    exact (ratrecon_always f m newk fr r' Hm ltac:(lia) Hd E).
+Qed.
+
+Definition RatCtor_always := forall f m k flags recurs r, 1 <= m -> 1 <= k <= m -> f <= m ->
+  RatCtor f m k flags recurs = Some r -> always f m r.
+Lemma ratctor_always : RatCtor_always.
+Proof.
+  intros f m k flags recurs r Hm Hk Hf. unfold RatCtor.
+  destruct (ratrecon f m k flags) as [r0|] eqn:E; [|discriminate].
+  pose proof (ratrecon_always f m k flags r0 Hm (proj1 Hk) (or_introl (proj2 Hk)) E) as A0.
+  destruct recurs.
+  - intros W. exact (widen_always f m flags Hm Hf _ (k + 1) r0 r ltac:(lia) A0 W).
+  - intros R; inversion R; subst; exact A0.
+Qed.
